@@ -349,7 +349,8 @@ func preferWriteByte(m dsl.Matcher) {
 	// characters below RuneSelf are represented as themselves in a single byte.
 	const runeSelf = 0x80
 	m.Match(`$w.WriteRune($c)`).Where(
-		m["w"].Type.Implements("io.ByteWriter") && (m["c"].Const && m["c"].Value.Int() < runeSelf),
+		// Only literals: a typed rune constant is not assignable to the byte parameter, -1 is not a byte.
+		m["w"].Type.Implements("io.ByteWriter") && (m["c"].Node.Is(`BasicLit`) && m["c"].Value.Int() < runeSelf),
 	).Report(`consider writing single byte rune $c with $w.WriteByte($c)`)
 }
 
